@@ -262,9 +262,10 @@ def run_session(exe, steps, eof=False, sync_timeout=120, capture=None, strict_be
             # a search of an illegal position may or may not have panicked: either artifact flag is accepted
             want = want.split(" artifact=")[0] + " artifact=" + traces[-1].split(" artifact=")[-1]
         if not traces:
-            note(f"no state trace after `{cmd[:60]}`")
+            note(f"trace: no state trace after `{cmd[:60]}`")
         elif traces[-1] != want:
-            note(f"after `{cmd[:60]}`: loop state `{traces[-1]}` but the session model says `{want}`")
+            # the loop's internal state is compared with the MODEL (tie), it is not an observable of any property
+            note(f"trace: after `{cmd[:60]}`: loop state `{traces[-1]}` but the session model says `{want}`")
     if alive:
         if not quit_sent and not eof:
             eng.send("quit")
